@@ -472,6 +472,30 @@ pub fn inject(sim: &mut Sim, p: usize, spec: &InjectSpec) -> Vec<(Proto, Bytes, 
         // ... and then plants exactly that block in a filters answer
         return plant_side_branch_block(sim, p, &mut rng, true);
     }
+    if spec.kind == 105 {
+        // genuine block filter hashes, unasked, starting at boundary positions of the client's
+        // own bookkeeping (around check points and the filtered number), in boundary lengths
+        let view = sim.peers[p].view;
+        let iv = interval.max(1);
+        for _ in 0..rng.range(1, 3) {
+            let cp = (fin_cp + rng.below(3)).saturating_sub(1);
+            let start = match rng.below(4) {
+                0 => mf + rng.below(3),
+                _ => (cp * iv + rng.below(3)).max(1),
+            };
+            let mut cfg = sim.peer_cfg(p);
+            cfg.hashes_batch = *rng.pick(&[1u64, iv.saturating_sub(1).max(1), iv, iv + 1, 2 * iv, 2000]);
+            if let Some(m) = server::block_filter_hashes(&sim.world, view, &cfg, start) {
+                out.push((
+                    Proto::Filter,
+                    server::filter_msg(m).as_bytes(),
+                    crafted(Kind::BlockFilterHashes, "genuine block filter hashes, unasked, from a boundary start number"),
+                ));
+                sim.stat("fault.byz.unasked_hashes_from_a_boundary_start");
+            }
+        }
+        return out;
+    }
     if spec.kind == 103 {
         if let Some(hash) = plant_header(sim, p, &mut rng) {
             sim.stat("fault.byz.planted_boundary_header");
